@@ -463,7 +463,7 @@ def cryptosign(col, seed, n, only=None):
     col.exhaustive.append("every single-bit flip of one Ed25519 signature (512)")
 
 
-WELCOME_VARIANTS = ["correct", "absent", "empty", "other-keys", "empty-string", "bit-flipped", "not-base64", "null-signature", "truncated"]
+WELCOME_VARIANTS = ["correct", "absent", "empty", "other-keys", "empty-string", "bit-flipped", "not-base64", "null-signature", "truncated", "other-authmethod"]
 
 
 def scram_session_one(c):
@@ -512,10 +512,12 @@ def scram_session_one(c):
         flipped = bytes(b ^ (1 << (k % 8)) if i == k // 8 else b for i, b in enumerate(sig))
         authextra = {"correct": {"scram_server_signature": good}, "absent": None, "empty": {}, "other-keys": {"x_note": "hello"}, "empty-string": {"scram_server_signature": ""},
                      "bit-flipped": {"scram_server_signature": base64.b64encode(flipped).decode("ascii")}, "not-base64": {"scram_server_signature": "###"},
-                     "null-signature": {"scram_server_signature": None}, "truncated": {"scram_server_signature": base64.b64encode(sig[:31]).decode("ascii")}}[c["variant"]]
+                     "null-signature": {"scram_server_signature": None}, "truncated": {"scram_server_signature": base64.b64encode(sig[:31]).decode("ascii")},
+                     # after the SCRAM exchange the router claims another method in its WELCOME and sends no server signature at all
+                     "other-authmethod": None}[c["variant"]]
         n1 = len(w.t.sent)
         try:
-            err = w.welcome(4711, authid=authid, authrole="user", authmethod="scram", authprovider="static", authextra=authextra)
+            err = w.welcome(4711, authid=authid, authrole="user", authmethod="anonymous" if c["variant"] == "other-authmethod" else "scram", authprovider="static", authextra=authextra)
         except Exception as e:         # building the WELCOME itself failed: not a case
             raise HarnessError("cannot build WELCOME for %r: %r" % (c["variant"], e))
         joined = any(e[0] == "join" for e in w.events)
